@@ -36,7 +36,8 @@ def run_rule_cases(variant, groups, wd, name, flags=0, extra_lines_before=(), ha
             for ln in (g.get("scan_pre") or [[]] * len(g["bufs"]))[bi]:
                 lines.append(ln)
             lines.append("data 1 %s" % yv.hx(b))
-            lines.append("scan 0 1 mem - - -")
+            spec = (g.get("blocks") or [None] * len(g["bufs"]))[bi]        # block sizes: the buffer handed over as several memory blocks
+            lines.append("scan 0 1 blocks %s - -" % spec if spec else "scan 0 1 mem - - -")
         lines.append("sdestroy 0")
         lines.append("rdestroy 0")
     lines.append("finalize")
